@@ -154,6 +154,7 @@ def run(ctx):
     for i in range(0, len(cells), 4000):
         events.append({"op": "notes", "cells": cells[i:i + 4000], "bytes": bts[i:i + 4000], "decoded": dec[i:i + 4000]})
     # ---- pattern byte images
+    held_loaded = []        # loaded projects kept alive while later files (of other versions) are read
     for k in range(40 if q else 400):
         lines = rnd.randrange(1, 17 if q else 65)
         tracks = rnd.randrange(1, 5 if q else 9)
@@ -169,7 +170,16 @@ def run(ctx):
                 c = [rnd.choice(cmds), rnd.randrange(130), rnd.randrange(65536), rnd.randrange(65536), rnd.randrange(65536)]
             image += list(struct.pack("<BBHHH", *c))
         pat = api.Pattern(tracks=tracks, lines=lines)
-        pat.raw_data = bytes(image)
+        if k % 3 == 1:          # the image handed over in a scratch buffer that the caller reuses right away
+            buf = bytearray(image)
+            pat.raw_data = buf
+            buf[:] = bytes([0xAB]) * len(buf)
+        elif k % 3 == 2:
+            buf = bytearray(image)
+            pat.raw_data = memoryview(buf)
+            buf[:] = bytes(len(buf))
+        else:
+            pat.raw_data = bytes(image)
         held = [x for line in pat.data for x in line]
         cl = [[int(x.note), x.vel, x.module, x.ctl, x.val] for x in held]
         back = list(pat.raw_data)
@@ -183,6 +193,8 @@ def run(ctx):
         p2 = api.read_sunvox_file(io.BytesIO(data))
         events.append({"op": "pattern", "lines": lines, "tracks": tracks, "image": list(image), "cells": cl, "back": back, "vers": vers,
                        "pdta": pdta[0] if pdta else [], "reloaded": list(p2.patterns[0].raw_data)})
+        if k not in (3, 4):
+            held_loaded.append((p2, events[-1]))
         ctx.count_case(("pattern", k, lines, tracks, hash(bytes(image))), nontrivial=True)
         # history on the same pattern: cells edited through note objects handed out BEFORE the save (no further access to
         # pattern.data), then image, file and reload again - the byte image is the cells, not a memo of the last save
@@ -212,7 +224,12 @@ def run(ctx):
             else:
                 c = [rnd.choice(cmds), rnd.randrange(130), rnd.randrange(65536), rnd.randrange(65536), rnd.randrange(65536)]
             image3 += list(struct.pack("<BBHHH", *c))
-        pat.raw_data = bytes(image3)
+        if k % 2:
+            buf = bytearray(image3)
+            pat.raw_data = buf
+            buf[:] = bytes([0x11]) * len(buf)
+        else:
+            pat.raw_data = bytes(image3)
         data3 = p.read()
         pdta3 = [list(pl) for cid, pl in tlv.split(data3) if cid == b"PDTA"]
         p4 = api.read_sunvox_file(io.BytesIO(data3))
@@ -220,6 +237,13 @@ def run(ctx):
                        "cells": [[int(x.note), x.vel, x.module, x.ctl, x.val] for line in pat.data for x in line], "back": list(pat.raw_data),
                        "vers": [2, 1, 2, 1], "pdta": pdta3[0] if pdta3 else [], "reloaded": list(p4.patterns[0].raw_data)})
         ctx.count_case(("pattern-reassigned", k, hash(bytes(image3))), nontrivial=True)
+    # the projects loaded above, looked at again after all the later loads (files of older versions among them): what was
+    # loaded from one file is not touched by reading another
+    for pj_, ev_ in held_loaded:
+        e2 = dict(ev_)
+        e2["reloaded"] = list(pj_.patterns[0].raw_data)
+        events.append(e2)
+        ctx.count_case(("pattern-held", len(events)), nontrivial=True)
     # ---- file-only packed words
     for always in (False, True):
         for ch in list(range(0, 18)) + ([31, 255] if not q else []):
